@@ -563,6 +563,7 @@ func ParseURI(uri SIPStr, puri *PsipURI) (ErrorURI, int) {
 					puri.Host.Reset()
 					puri.Port.Reset()
 					puri.PortNo = 0
+					portNo = 0 // forget the digits of the discarded port
 					puri.Params.Reset()
 					puri.Headers.Reset()
 				} else {
@@ -624,6 +625,7 @@ func ParseURI(uri SIPStr, puri *PsipURI) (ErrorURI, int) {
 					puri.Host.Reset()
 					puri.Port.Reset()
 					puri.PortNo = 0
+					portNo = 0 // forget the digits of the discarded port
 					puri.Params.Reset()
 					puri.Headers.Reset()
 				} else {
